@@ -100,3 +100,10 @@ package common
 //@   trusted
 //@   ensures result == metaof(pageat(buf)) && result != nil
 //@   modifies nothing
+
+//@ func CopyFile
+//@   returns (err)
+//@   props C20
+//@   ensures [nowriteat] fwcount == old(fwcount)
+//@   ensures [created] ncreated <= old(ncreated) + 1 && (ncreated == old(ncreated) + 1 ==> createdpath == dstPath)
+//@   ensures [success] err == nil ==> ncreated == old(ncreated) + 1
